@@ -4,7 +4,7 @@ from vrun import Job
 LEVEL = 'exploration'
 RULE = ('seeding: client and server x {system seeder fails, no seeder known (hook H1), library built with every system seeder disabled} x '
         '{entropy injected, not injected}: reset must return 0 with BR_ERR_NO_RANDOM, state CLOSED and no byte offered, or proceed (and a '
-        'handshake with injected entropy only completes); the same context reset up to four times (a refused reset must not wear the check out). '
+        'handshake with injected entropy only completes); the same context reset up to four times (a refused reset must not wear the check out); engines without SHA-256 / without SHA-256 and SHA-384 (the generator then runs on the next hash) obey the same rule, an engine with none of SHA-256/384/1 never starts. '
         'sysrng: builds without RDRAND whose system seeder is getentropy()+/dev/urandom or /dev/urandom alone, with link-time failpoints '
         '(--wrap) on getentropy/open/read/close: every script of N read() outcomes from {EINTR, EIO, deliver 1/5/13/31/32 bytes} x open '
         '{ok, ENOENT, EMFILE} x getentropy {ok, fails} x role x injected: outcome must equal the model (seeded iff injected or 32 bytes '
@@ -20,8 +20,8 @@ ASSUMPTIONS = [
     'uniqueness is observed, the quality of the randomness is not assessed',
     'OpenSSL EVP trusted for the independent record layer',
 ]
-EVAL = ['cases', 'seed_sequence_resets']
-DISTINCT = ['mode_version', 'seeding_build', 'repro_cfg', 'seed_sequence_step', 'fault_plan', 'seeding_outcome', 'system_seeder_name']
+EVAL = ['cases', 'seed_sequence_resets', 'seed_hash_cases']
+DISTINCT = ['mode_version', 'seeding_build', 'repro_cfg', 'seed_sequence_step', 'seed_hash_outcome', 'fault_plan', 'seeding_outcome', 'system_seeder_name']
 REQUIRED = ['refused_without_randomness', 'seed_sequence_resets', 'started_with_randomness', 'inject_only_handshakes', 'records_sequence_checked',
             'explicit_ivs_seen', 'iv_sets_checked_unique', 'renegotiations', 'key_changes_seen', 'connections',
             'fields_checked_pairwise_distinct', 'reproduced_pairs', 'first_flights_compared', 'direct_outputs_compared',
